@@ -2649,6 +2649,85 @@ func c11r25(c *Ctx, r *Report) {
 	r.floor("places where interpretCode counts a parameter", n, 1)
 }
 
+// c19r17: the rules about hidden directories and --walker-skip are about what is met during the walk. A root the
+// user names is walked whatever its own name is (D99: it was subject to the same tests: `--walker-root
+// node_modules` or `--walker-root .cfg` listed nothing, while `node_modules/.` listed everything).
+func c19r17(c *Ctx, r *Report) {
+	l := c.L
+	r.rule("C19-R17", "A (the prune tests exempt the root)", "P1",
+		"in the walker callbacks of Reader.readFiles, every return of filepath.SkipDir is control dependent on a bool that says whether the entry is the root (a parameter or captured variable of the callback), and readFiles has a per-root flag that a callback clears",
+		"an explicitly given root whose base name is hidden or in the skip list (.git, node_modules, ~/.config) lists nothing")
+	fn := l.Fn("fzf", "(*Reader).readFiles")
+	if fn == nil {
+		r.unest("anchors", token.NoPos, nil, "anchor Reader.readFiles", "cannot resolve")
+		return
+	}
+	cc := cdCache{}
+	isBoolSource := func(v ssa.Value) bool {
+		bt, ok := v.Type().Underlying().(*types.Basic)
+		if !ok || bt.Kind() != types.Bool {
+			return false
+		}
+		if _, isP := v.(*ssa.Parameter); isP {
+			return true
+		}
+		if u, ok := v.(*ssa.UnOp); ok && u.Op == token.MUL {
+			if _, isF := u.X.(*ssa.FreeVar); isF {
+				return true
+			}
+		}
+		return false
+	}
+	n := 0
+	for _, g := range withClosures(fn) {
+		eachInstr(g, func(in ssa.Instruction) {
+			// the read of filepath.SkipDir that feeds the return (returns are spilled through the result cell
+			// because of the deferred Unlock)
+			ret, ok := in.(*ssa.UnOp)
+			if !ok || ret.Op != token.MUL {
+				return
+			}
+			gl, ok := ret.X.(*ssa.Global)
+			if !ok || gl.Name() != "SkipDir" {
+				return
+			}
+			n++
+			exempt := false
+			for cond := range cc.of(ret) {
+				for v := range backwardSlice(cond, nil, nil) {
+					if isBoolSource(v) {
+						exempt = true
+					}
+				}
+			}
+			r.check(exempt, fmt.Sprintf("%s:prune #%d does not apply to the root", relName(fn), n), ret.Pos(), g,
+				"under a test of the is-root flag", "the directory is pruned whether or not it is the root the user gave")
+		})
+	}
+	r.floor("returns of filepath.SkipDir in the walker callback", n, 4)
+	// the per-root flag: a bool cell of readFiles that a callback sets to false
+	cleared := 0
+	for _, g := range withClosures(fn) {
+		if g == fn {
+			continue
+		}
+		eachInstr(g, func(in ssa.Instruction) {
+			st, ok := in.(*ssa.Store)
+			if !ok {
+				return
+			}
+			if _, isF := st.Addr.(*ssa.FreeVar); !isF {
+				return
+			}
+			if bv, ok := constBool(st.Val); ok && !bv {
+				cleared++
+			}
+		})
+	}
+	r.check(cleared >= 1, relName(fn)+":the first callback of a walk is told apart", fn.Pos(), fn,
+		"a callback clears a flag of readFiles", "no callback clears a flag of readFiles: nothing distinguishes the root from what is met below it")
+}
+
 func round10(c *Ctx, r *Report, prop string) {
 	switch prop {
 	case "C01":
@@ -2705,6 +2784,7 @@ func round10(c *Ctx, r *Report, prop string) {
 		c18r16(c, r)
 	case "C19":
 		c19r16(c, r)
+		c19r17(c, r)
 	case "C20":
 		c20r16(c, r)
 		c20r17(c, r)
